@@ -249,7 +249,7 @@ func escapePath(p string, mode int) string {
 func genPath(t *rapid.T) string {
 	l := genLabel(t, "path_l")
 	var p string
-	switch rapid.IntRange(0, 27).Draw(t, "path_kind") {
+	switch rapid.IntRange(0, 30).Draw(t, "path_kind") {
 	case 0, 1, 2:
 		p = "/dns-query"
 	case 3, 4, 5, 6, 7, 8, 9, 10:
@@ -288,6 +288,13 @@ func genPath(t *rapid.T) string {
 		p = "/"
 	case 27:
 		p = "/dns-query/" + l + "/" + genLabel(t, "path_l2") + "/" + genLabel(t, "path_l3")
+	case 28:
+		// prefix lookalikes of the endpoint name: not the DoH endpoint at all
+		p = "/dns-query" + l
+	case 29:
+		p = "/dns-query" + l + "/"
+	case 30:
+		p = "/x/../dns-query" + l
 	}
 	mode := 0
 	if rapid.IntRange(0, 3).Draw(t, "path_escape") == 0 {
